@@ -9,6 +9,7 @@ import EV.Drv.HeaderCache
 import EV.Drv.Rpc
 import EV.Drv.System
 import EV.Drv.Shutdown
+import EV.Drv.Mempool
 
 /-!
 `evdrv <suite>`: reads one operation per line on stdin, applies it to the Lean model of that
@@ -48,4 +49,5 @@ def main (args : List String) : IO UInt32 := do
   | ["rpc"] => Drv.loop stdin stdout Drv.RpcD.stepLine {}; return 0
   | ["system"] => Drv.loop stdin stdout Drv.SystemD.stepLine {}; return 0
   | ["shutdown"] => Drv.loop stdin stdout Drv.ShutdownD.stepLine (some {}); return 0
+  | ["mempool"] => Drv.loop stdin stdout Drv.MempoolD.stepLine {}; return 0
   | _ => IO.eprintln "usage: evdrv <suite>"; return 2
